@@ -59,6 +59,10 @@ pub struct Variant {
     /// arrays in YAML block style (one `- item` per line) instead of flow style `[a, b]`
     #[serde(default)]
     pub block: bool,
+    /// a comment header of about this many bytes full of multi-byte UTF-8 characters (0 = none):
+    /// makes the file several KiB long and puts multi-byte characters across every block boundary
+    #[serde(default)]
+    pub header_bytes: usize,
 }
 
 #[derive(Clone, Debug, Serialize, Deserialize, PartialEq)]
@@ -87,6 +91,8 @@ pub enum Op {
     InvalidUtf8(usize),
     Remove,
     ReplaceByDir,
+    /// the path becomes a named pipe through which source #i is delivered (length unknown to stat)
+    Fifo(usize),
 }
 
 #[derive(Clone, Debug, Serialize, Deserialize)]
@@ -100,6 +106,7 @@ enum Node {
     Absent,
     Dir,
     Bytes(Vec<u8>),
+    Fifo(Vec<u8>),
 }
 
 #[derive(Clone, Debug)]
@@ -125,6 +132,19 @@ fn fmt_num(x: f64, integers: bool) -> String {
 fn model_yaml(p: &ParamSpec, v: &Variant) -> String {
     let nl = if v.crlf { "\r\n" } else { "\n" };
     let mut s = String::new();
+    if v.header_bytes > 0 {
+        // "# Brandstötter, Angerer, Hofbaur — µ°±" style lines; the first line has a variable
+        // number of ASCII characters so that the alignment of the multi-byte ones shifts
+        s.push_str("# ");
+        for _ in 0..(v.header_bytes % 7) {
+            s.push('x');
+        }
+        s.push_str(nl);
+        while s.len() < v.header_bytes {
+            s.push_str("# Brandstötter öäüß µ°± éèê — ∑∆ 機械");
+            s.push_str(nl);
+        }
+    }
     if v.comments {
         s.push_str("# generated robot");
         s.push_str(nl);
@@ -298,6 +318,7 @@ fn apply(node: &Node, op: &Op, contents: &[Vec<u8>]) -> Node {
         }
         Op::Remove => Node::Absent,
         Op::ReplaceByDir => Node::Dir,
+        Op::Fifo(i) => Node::Fifo(contents[*i].clone()),
     }
 }
 
@@ -309,6 +330,21 @@ fn materialise(dir: &Path, node: &Node) -> PathBuf {
         Node::Absent => {}
         Node::Dir => std::fs::create_dir_all(&path).expect("scratch dir"),
         Node::Bytes(b) => std::fs::write(&path, b).expect("scratch write"),
+        Node::Fifo(b) => {
+            // a real named pipe with a writer thread (the reader blocks in open() until then)
+            let ok = std::process::Command::new("mkfifo").arg(&path).status().map(|s| s.success()).unwrap_or(false);
+            if ok {
+                let (p, data) = (path.clone(), b.clone());
+                std::thread::spawn(move || {
+                    use std::io::Write;
+                    if let Ok(mut f) = std::fs::OpenOptions::new().write(true).open(&p) {
+                        let _ = f.write_all(&data);
+                    }
+                });
+            } else {
+                std::fs::write(&path, b).expect("scratch write");
+            }
+        }
     }
     path
 }
@@ -358,6 +394,7 @@ fn kind_of_fault(ops: &[Op]) -> String {
             Op::InvalidUtf8(_) => Some("invalid-utf8"),
             Op::Remove => Some("removed"),
             Op::ReplaceByDir => Some("replaced-by-directory"),
+            Op::Fifo(_) => Some("named-pipe"),
         })
         .collect();
     names.dedup();
@@ -420,7 +457,7 @@ pub fn judge_in(case: &Case, scratch: &Path) -> Vec<Fail> {
                     signature: format!("C19/io-error-expected/{fault}"),
                     detail: format!("path is {:?} but the loader returned {}", node, show(other)),
                 }),
-                (Node::Bytes(b), _) => {
+                (Node::Bytes(b), _) | (Node::Fifo(b), _) => {
                     // if the surviving bytes are exactly a complete source, its expectation holds
                     for (i, src) in case.sources.iter().enumerate() {
                         if *b == contents[i] && !contents[i].is_empty() {
@@ -497,6 +534,9 @@ fn variant_features(p: &ParamSpec, v: &Variant) -> String {
     if v.block {
         f.push("block-arrays");
     }
+    if v.header_bytes > 0 {
+        f.push("long-utf8-header");
+    }
     if f.is_empty() {
         f.push("plain");
     }
@@ -505,7 +545,7 @@ fn variant_features(p: &ParamSpec, v: &Variant) -> String {
 
 fn preview(n: &Node) -> String {
     match n {
-        Node::Bytes(b) => {
+        Node::Bytes(b) | Node::Fifo(b) => {
             let s = String::from_utf8_lossy(&b[..b.len().min(160)]).to_string();
             format!("{} bytes: {s:?}", b.len())
         }
@@ -596,6 +636,7 @@ fn gen_variant(w: &mut Rng) -> Variant {
         comments: w.chance(0.4),
         crlf: w.chance(0.15),
         block: w.chance(0.3),
+        header_bytes: if w.chance(0.25) { w.range_usize(3900, 9000) } else { 0 },
     }
 }
 
@@ -745,6 +786,9 @@ pub fn run(tier_name: &str, seed: u64) -> i32 {
             for op in [Op::Remove, Op::ReplaceByDir] {
                 run_case(&mk(vec![Op::Write(0), op]), &scratch.0, &mut tally, &mut seen);
             }
+            if base % 3 == 0 {
+                run_case(&mk(vec![Op::Fifo(0)]), &scratch.0, &mut tally, &mut seen);
+            }
             run_case(&mk(vec![Op::Remove]), &scratch.0, &mut tally, &mut seen);
             run_case(&mk(vec![Op::Write(1), Op::OverwriteNoTruncate(0)]), &scratch.0, &mut tally, &mut seen);
             run_case(&mk(vec![Op::Write(0), Op::OverwriteNoTruncate(1)]), &scratch.0, &mut tally, &mut seen);
@@ -770,6 +814,42 @@ pub fn run(tier_name: &str, seed: u64) -> i32 {
                 }
                 run_case(&mk(ops), &scratch.0, &mut tally, &mut seen);
                 tally.distinct.insert(simctx::mix(&[shard as u64, base as u64, 5, r as u64]) as u128);
+            }
+            // unusual-but-valid YAML scalars in place of one number of a complete file (no-panic clause)
+            if let Ok(text) = String::from_utf8(content_of(&src_a).unwrap_or_default()) {
+                let tokens = [".inf", "-.inf", ".nan", ".NaN", "+.INF", "1e400", "-1e400", "0x1F", "0o17", "1_000", "~", "null", "true", "\"0.5\"", "'0.5'", "!!float 1", "&a 1", "*a", "[1]", "{a: 1}", "1.", ".5", "+1", "1e", "deg(.inf)", "deg(1e400)", "deg()", "deg(", ")"];
+                // positions of numeric tokens: after ": " or inside arrays
+                let bytes = text.as_bytes();
+                let mut starts: Vec<(usize, usize)> = Vec::new();
+                let mut i = 0;
+                while i < bytes.len() {
+                    let numeric = |c: u8| c.is_ascii_digit() || c == b'-' || c == b'.';
+                    if numeric(bytes[i]) && (i == 0 || matches!(bytes[i - 1], b' ' | b'[' | b',' | b'(')) {
+                        let mut j = i;
+                        while j < bytes.len() && (numeric(bytes[j]) || bytes[j] == b'e') {
+                            j += 1;
+                        }
+                        if bytes[i..j].iter().any(|c| c.is_ascii_digit()) {
+                            starts.push((i, j));
+                        }
+                        i = j;
+                    } else {
+                        i += 1;
+                    }
+                }
+                for _ in 0..t.random_faults / 3 {
+                    if starts.is_empty() {
+                        break;
+                    }
+                    let (a, b) = *w.pick(&starts);
+                    let tok = *w.pick(&tokens);
+                    let mut nb = bytes[..a].to_vec();
+                    nb.extend_from_slice(tok.as_bytes());
+                    nb.extend_from_slice(&bytes[b..]);
+                    let case = Case { sources: vec![Source::Raw(nb)], ops: vec![Op::Write(0)] };
+                    tally.bump("fault_unusual_yaml_scalar_substituted", 1);
+                    run_case(&case, &scratch.0, &mut tally, &mut seen);
+                }
             }
             // arbitrary byte strings for the no-panic clause
             for r in 0..t.random_faults / 2 {
